@@ -54,3 +54,13 @@ Theorem C10_next_after_largest : forall h c' r,
   largest_prime_hyp -> cursor_step (MAXPRIME64 + 1, h) Next c' r -> r = Err /\ c' = (MAXPRIME64 + 1, h).
 Proof. exact next_after_largest. Qed.
 Print Assumptions C10_next_after_largest.
+
+(** [largest_prime_hyp] reduced: the 58 numbers between 18446744073709551557 and 2^64 are composite (a factor of each
+    is checked by computation), so only the primality of 18446744073709551557 itself remains a literature fact *)
+From PS Require Import Proofs.TopGapP Proofs.StoreP.
+Theorem C10_no_prime_above_maxprime : forall q, MAXPRIME64 < q -> q <= MAX64 -> ~ prime q.
+Proof. exact no_prime_above_maxprime. Qed.
+Print Assumptions C10_no_prime_above_maxprime.
+Theorem C10_largest_prime_reduced : prime MAXPRIME64 -> largest_prime_hyp.
+Proof. exact largest_prime_reduced. Qed.
+Print Assumptions C10_largest_prime_reduced.
